@@ -46,7 +46,7 @@ class C15(Prop):
     rule = ("pairs over all four strand combinations with boundary-biased positions (0, 1, mid, 2^32, u64::MAX), "
             "coordinates on/next to both ends, clamp operands that meet the reference interval; a case is non-trivial "
             "when the coordinate lies on the reference interval, or the clamp operand cuts it properly, touches an end "
-            "or is empty; distinct = distinct (op, strands, relative position class)")
+            "or is empty; distinct = distinct (op, pair, coordinate / operand)")
 
     def gen_iv(self, rng, name, length=None):
         strand = rng.choice("+-")
@@ -96,7 +96,7 @@ class C15(Prop):
                 ev.judge = "equal lengths must be accepted unchanged, got: " + i
             if not eq and i != "err counts":
                 ev.judge = "unequal lengths must be refused, got: " + i
-            ev.nontrivial = ("new", r[1], q[1], eq)
+            ev.nontrivial = ("new", tuple(r), tuple(q))
         elif kind == "pair_lift":
             c = case["c"]
             i, m = both(ctx, ev, "pair_lift %s %s %s:%s:%d" % (rt, qt, hx(c[0]), c[1], c[2]))
@@ -105,7 +105,7 @@ class C15(Prop):
                 if inside:
                     k = off_of(r[1], r[2], r[3], c[2])
                     want = "some %s:%s:%d" % (hx(q[0]), q[1], at_off(q[1], q[2], q[3], k))
-                    ev.nontrivial = ("lift", r[1], q[1], "start" if k == 0 else "end" if k == r[3] - r[2] else "mid")
+                    ev.nontrivial = ("lift", tuple(r), tuple(q), tuple(c))
                 else:
                     want = "none"
                 if i != want:
@@ -127,7 +127,8 @@ class C15(Prop):
                     qa, qb = at_off(q[1], q[2], q[3], o1), at_off(q[1], q[2], q[3], o2)
                     want = "ok %s>%s" % (iv_tok(r[0], r[1], lo, hi), iv_tok(q[0], q[1], min(qa, qb), max(qa, qb)))
                     cls = ("empty" if lo == hi else "whole" if (lo, hi) == (r[2], r[3]) else "cut")
-                    ev.nontrivial = ("clamp", r[1], q[1], cls, lo == r[2], hi == r[3])
+                    ev.nontrivial = ("clamp", tuple(r), tuple(q), tuple(iv))
+                    ev.tags.append("clamp:%s%s:%s" % (r[1], q[1], cls))
                 if i != want:
                     ev.judge = "clamp: expected %s, got %s" % (want, i)
         ev.tags.append(kind + ":" + head(ev.impl[-1]))
@@ -231,7 +232,7 @@ class LiftProp(Prop):
         return i, m
 
     def shrink(self, case):
-        for cs in ch.shrink_chains(case["chains"]):
+        for cs in ch.shrink_chains(case["chains"], allow_zero=self.zero_prob > 0):
             c = copy.deepcopy(case)
             c["chains"] = cs
             yield c
